@@ -34,7 +34,7 @@ Definition ctl_step (st : state) (oo : op * outcome) : state :=
   match oo with
   | (OpenW w m chans auths, OOk _) =>
       match chan_auths chans auths with
-      | Some ca => State (st_unowned st) (st_deadinlet st) (st_chans st) (st_cap st) (st_writers st ++ [(w, Writer true m ca (st_npos st) 0)])
+      | Some ca => State (st_unowned st) (st_deadinlet st) (st_chans st) (st_cap st) (st_writers st ++ [(w, Writer true m ca (st_npos st) 0)]) []
                          (st_npos st + 1) [] [] false []
       | None => st
       end
@@ -45,7 +45,10 @@ Definition ctl_step (st : state) (oo : op * outcome) : state :=
   end.
 
 Record wrec := WRec {
-  wr_idx : nat; wr_w : N; wr_seq : N;
+  wr_idx : nat;          (* index of the operation that issues the write *)
+  wr_hi : nat;           (* index of the operation by which the Write call has returned
+                            (the Write itself, or the Join of a background writer) *)
+  wr_w : N; wr_seq : N;
   wr_orig : list N;      (* keys written *)
   wr_good : list N;      (* keys the writer holds and is authorized on *)
   wr_unauth : list N;    (* keys the writer holds but is not authorized on *)
@@ -53,6 +56,28 @@ Record wrec := WRec {
   wr_streams : bool;
   wr_done : bool         (* the Write call reported success *)
 }.
+
+Definition mk_wrec (st : state) (i hi : nat) (w q : N) (ks : list N) (done : bool) : wrec :=
+  match open_writer_of st w with
+  | Some wr =>
+      WRec i hi w q ks
+           (filter (fun k => owned wr k && negb (excluded st w wr ks k)) ks)
+           (filter (fun k => owned wr k && excluded st w wr ks k) ks)
+           (filter (fun k => negb (owned wr k)) ks)
+           (streams (w_mode wr)) done
+  | None => WRec i hi w q ks [] [] ks false false
+  end.
+Fixpoint find_join (w : N) (j : nat) (sc : list (op * outcome)) : nat :=
+  match sc with
+  | [] => j
+  | (Join w', OOk _) :: r => if w' =? w then j else find_join w (S j) r
+  | _ :: r => find_join w (S j) r
+  end.
+Fixpoint bg_wrecs (st : state) (i hi : nat) (w q : N) (kss : list (list N)) : list wrec :=
+  match kss with
+  | [] => []
+  | ks :: r => mk_wrec st i hi w (q + 1) ks true :: bg_wrecs st i hi w (q + 1) r
+  end.
 
 Fixpoint wrecs (st : state) (seqs : list (N * N)) (i : nat) (sc : list (op * outcome)) : list wrec :=
   match sc with
@@ -63,18 +88,12 @@ Fixpoint wrecs (st : state) (seqs : list (N * N)) (i : nat) (sc : list (op * out
       | Write w ks _, OOk _ | Write w ks _, OErr =>
           let q := default 0 (alookup w seqs) + 1 in
           let seqs' := (w, q) :: aremove w seqs in
-          let rec :=
-            match open_writer_of st w with
-            | Some wr =>
-                WRec i w q ks
-                     (filter (fun k => owned wr k && negb (excluded st w wr ks k)) ks)
-                     (filter (fun k => owned wr k && excluded st w wr ks k) ks)
-                     (filter (fun k => negb (owned wr k)) ks)
-                     (streams (w_mode wr))
-                     (match out with OOk _ => true | _ => false end)
-            | None => WRec i w q ks [] [] ks false false
-            end in
-          rec :: wrecs st' seqs' (S i) r
+          mk_wrec st i i w q ks (match out with OOk _ => true | _ => false end)
+            :: wrecs st' seqs' (S i) r
+      | BgWrites w kss, OOk _ =>
+          let q := default 0 (alookup w seqs) in
+          let seqs' := (w, q + N.of_nat (length kss)) :: aremove w seqs in
+          bg_wrecs st i (find_join w (S i) r) w q kss ++ wrecs st' seqs' (S i) r
       | _, _ => wrecs st' seqs (S i) r
       end
   end.
@@ -142,9 +161,9 @@ Fixpoint possible_sets (isc : list (nat * (op * outcome))) (s : N) (i : nat) (e 
                       end in
       if lt_opt o e && negb replaced then ks :: later else later
   end.
-Definition psets (isc : list (nat * (op * outcome))) (s : N) (i : nat) : list (list N) :=
-  if lt_opt i (close_idx isc s) && lt_opt i (closedb_idx isc)
-  then possible_sets isc s i (first_after i (sync_idxs isc)) (requests isc s)
+Definition psets (isc : list (nat * (op * outcome))) (s : N) (lo hi : nat) : list (list N) :=
+  if lt_opt lo (close_idx isc s) && lt_opt lo (closedb_idx isc)
+  then possible_sets isc s lo (first_after hi (sync_idxs isc)) (requests isc s)
   else [].
 
 Definition subsetN (a b : list N) : bool := forallb (fun k => memN k b) a.
@@ -167,7 +186,7 @@ Definition item_kinds (isc : list (nat * (op * outcome))) (ws : list wrec) (s : 
       (if subsetN ks (wr_orig r) then [] else [4]) ++
       (if existsb (fun k => memN k (wr_unauth r)) ks then [5] else []) ++
       (if existsb (fun k => memN k (wr_unowned r) && memN k (wr_orig r)) ks then [6] else []) ++
-      (let ps := psets isc s (wr_idx r) in
+      (let ps := psets isc s (wr_idx r) (wr_hi r) in
        if forallb (fun k => existsb (memN k) ps) ks then [] else [7])
   end end.
 
@@ -188,11 +207,11 @@ Definition complete_kinds (tmo : N) (isc : list (nat * (op * outcome))) (ws : li
   | (o0, _) :: _ =>
     flat_map (fun r =>
       if wr_streams r && wr_done r && Nat.ltb o0 (wr_idx r) then
-        match first_after (wr_idx r) (sync_idxs isc) with
+        match first_after (wr_hi r) (sync_idxs isc) with
         | None => []
         | Some e =>
             if lt_opt e (close_idx isc s) && lt_opt e (closedb_idx isc) then
-              let ps := psets isc s (wr_idx r) in
+              let ps := psets isc s (wr_idx r) (wr_hi r) in
               if forallb (fun p => match interN (wr_good r) p with [] => false | _ => true end) ps then
                 match filter (fun x => (x.1.1 =? wr_w r) && (x.1.2 =? wr_seq r)) its with
                 | [] => [8]
